@@ -21,6 +21,9 @@ type Clause struct {
 	File  string
 	Line  int
 	Label string // optional label: ensures(name)
+	// Assumed: an ensures clause that callers may use but the function itself is
+	// not checked against (reported as an assumption in the evidence).
+	Assumed bool
 }
 
 type Contract struct {
@@ -40,6 +43,7 @@ type Contract struct {
 	External bool   // from /verif/external
 	NoPanic  bool   // generate #nopanic obligations
 	MayPanic string // documented panics are allowed (reason)
+	RegionMerge bool // merge the paths of acyclic single-entry regions at their post-dominator (region.go)
 	NoMerge  bool   // do not if-convert conditional blocks (keeps quantified proofs in their path-split shape)
 	Pure     bool   // callee does not modify any heap component
 	File     string
